@@ -2,8 +2,8 @@
 
 ENGINES = {
     "catchupsim": {"pkg": "./sim/catchupsim",
-                   "kind": "one real catchup.Service in a testing/synctest bubble syncing from simulated ws/http peers into a recording in-memory ledger; every block request, authenticator call, "
-                           "ledger round notification, request timeout/cancellation and clock advance is a park point released by a seeded scheduler, which also picks each peer answer "
+                   "kind": "one real catchup.Service in a testing/synctest bubble syncing from simulated ws/http peers into a recording in-memory ledger; every block request, fetch-goroutine start, "
+                           "ledger write return, ledger round notification, request timeout/cancellation and clock advance is a park point released by a seeded scheduler, which also picks each peer answer "
                            "(honest / wrong round / tampered payset or header / mismatched or forged certificate / garbage / error / stall), peer churn and concurrent agreement commits"},
 }
 
@@ -16,10 +16,10 @@ PROPS = {
                 "(each kind on with probability 1/2, rate 0-54%): block+cert of another round, payset entry edited/removed/duplicated/added/swapped (header kept, or commitment recomputed with a forged certificate), header field changed "
                 "(canonical or forged certificate), block and certificate of different rounds, certificate with wrong digest / wrong round / changed marker / another round's certificate relabelled / period changed, fabricated block for the round with a self-consistent forged certificate, "
                 "garbage (random bytes, truncation, inflated msgpack length prefixes, bit flip, swapped fields, missing topics, wrong content type, lying Content-Length), transport/HTTP/topic errors, spurious 'no block', no answer until the request times out; "
-                "responses of the pipelined fetches are released in tape-chosen order, round notifications, authenticator returns and request cancellations are delivered in tape-chosen order, the clock advances by tape-chosen amounts, "
+                "responses of the pipelined fetches are released in tape-chosen order, round notifications, fetch-goroutine starts, ledger write returns and request cancellations are delivered in tape-chosen order, the clock advances by tape-chosen amounts, "
                 "peers disappear/reappear, the ledger is advanced concurrently by 'agreement' commits, agreement hands unmatched certificates (fetchRound path), the ledger reports catchpoint writing. Then faults stop (GST) and only honest answers are scheduled until the ledger reaches the peers' tip. "
                 "non-trivial = the service wrote >= 3 blocks AND (at least one fault fired before a write OR at least one response overtook a pending request for a lower round); distinct = distinct canonical event-log digest; "
-                "distinct_states = distinct (ledger round, parked requests with state, parked authenticator calls, pending notifications) digests sampled every 4th step",
+                "distinct_states = distinct (ledger round, parked requests with state, parked write calls and fetch starts, pending notifications) digests sampled every 4th step",
         "components": {
             "real": ["catchup.Service (periodicSync, sync, pipelinedFetch, fetchAndWrite, innerFetch, fetchRound/syncCert)",
                      "catchup peer selectors (classBasedPeerSelector, rankPooledPeerSelector, historicStats)",
@@ -36,7 +36,9 @@ PROPS = {
             "CatchupBlockValidateMode bits 0 and 1 (operator opt-out of certificate / payset-hash verification) are never set; follow mode (EnableFollowMode) is not explored",
             "the simulated ledger accepts any block for the next round (no evaluation), so it never masks a missing check in the catchup service; a write call for a round beyond last+1 is itself reported (observe_at = write calls), a call for an already present round is the documented race with agreement",
             "a block requested through an unmatched certificate from agreement (fetchRound) must be the canonical block and be stored with exactly that certificate; no authenticator call is required there because agreement already verified the certificate",
-            "liveness bound (1500 scheduler steps and 200 simulated seconds after faults stop, time advancing in 2 s quanta only when nothing else is enabled) was validated on the unchanged tree: observed maxima are below 400 steps / 60 s",
+            "liveness bound (1500 scheduler steps and 200 simulated seconds after faults stop) was validated on the unchanged tree over > 60 000 runs: observed maxima are below 400 steps / 60 s. "
+            "After GST answers are honest, peers are present, agreement/churn/catchpoint actions stop, time advances in 2 s quanta only when nothing else is enabled, and a launched fetch goroutine starts at once (lowest round first); "
+            "the order of answers, notifications, cancellations and write returns stays tape-chosen. Without prompt starts the bound does not hold: see docs/sensitivity-catchupsim.md (observation on near-tip catch-up)",
             "sampling, not enumeration: a clean batch is evidence, not proof",
         ],
         "technique": "deterministic simulation with a Byzantine/tampering peer set and arbitrary completion order against the real catchup service; safety oracle at the recording ledger on every write call "
